@@ -270,12 +270,20 @@ def run_registry(cfg):
             else:
                 viol.append(dict(kind='registry', family=fam, alias=al, what='alias %r of family %s resolves to %s, expected %s' % (al, fam, getattr(got, '__name__', got), want.__name__),
                                  **{'class': 'registry/wrong'}))
-        ob += 1
-        try:
-            _resolve_class(family, 'no-such-alias-xyz')
-            viol.append(dict(kind='registry', family=fam, alias='no-such-alias-xyz', what='unknown alias accepted by %s' % fam, **{'class': 'registry/unknown'}))
-        except ValueError:
-            dis += 1
+        # unknown aliases: a fixed one, and every near miss of a registered alias (other letter case, surrounding blanks,
+        # one character more or less) that is not itself registered in the family
+        unknown = {'no-such-alias-xyz', ''}
+        for al in aliases:
+            unknown |= {al.upper(), al.capitalize(), al.title(), al.swapcase(), al + ' ', ' ' + al, al[:-1], al + 'x', al + '\n'}
+        for al in sorted(unknown - aliases):
+            ob += 1
+            try:
+                got = _resolve_class(family, al)
+                viol.append(dict(kind='registry', family=fam, alias=al, what='unknown alias %r accepted by %s (resolved to %s)' % (al, fam, getattr(got, '__name__', got)), **{'class': 'registry/unknown'}))
+            except ValueError:
+                dis += 1
+            except Exception as e:
+                viol.append(dict(kind='registry', family=fam, alias=al, what='unknown alias %r of family %s raised %s instead of ValueError' % (al, fam, type(e).__name__), **{'class': 'registry/unknown'}))
     return dict(obligations=ob, discharged=dis, violations=viol, samples=[{'config': 'registry', 'resolutions': sample}], twin=dis > 0, exhaustive=True)
 
 
@@ -417,6 +425,19 @@ def run_config(cfg):
 def replay(w):
     from pydrobert.speech.alias import AliasedFactory, alias_factory_subclass_from_arg
     k = w['kind']
+    if k == 'registry' and 'unknown alias' in w.get('what', ''):
+        import importlib
+        fam = dict((f, m) for m, f in FAMILIES)[w['family']]
+        family = getattr(importlib.import_module('pydrobert.speech.' + fam), w['family'])
+        try:
+            obj = family.from_alias(w['alias'])
+        except ValueError as e:
+            if 'alias' in str(e).lower() or 'valid' in str(e).lower():
+                return {'reproduced': False, 'detail': 'ValueError as documented: %s' % e}
+            return {'reproduced': True, 'detail': '%s.from_alias(%r) resolved the unknown alias to a class (its constructor then raised ValueError: %s)' % (w['family'], w['alias'], e)}
+        except Exception as e:
+            return {'reproduced': True, 'detail': '%s.from_alias(%r) did not raise ValueError for an unregistered alias but %s (resolved to a class whose constructor failed)' % (w['family'], w['alias'], type(e).__name__)}
+        return {'reproduced': True, 'detail': '%s.from_alias(%r) returned a %s although %r is not a registered alias' % (w['family'], w['alias'], type(obj).__name__, w['alias'])}
     if k in ('registry', 'nested'):
         return {'reproduced': True, 'detail': w['what']}
 
